@@ -94,9 +94,9 @@ func (b ABlock) String() string {
 }
 
 type batch struct {
-	IDs  []uint64
-	Txs  [][]byte // candidate transactions
-	Open bool
+	IDs     []uint64
+	Txs     [][]byte // candidate transactions
+	Open    bool
 	InBlock map[int]uint64 // candidate index -> height of the voted block that contains it
 }
 
@@ -107,7 +107,7 @@ type Bot struct {
 	Batches   map[uint64]*batch
 	NextPid   uint64
 	NextWid   uint64
-	NextReq   uint64 // unlock / claim ids
+	NextReq   uint64   // unlock / claim ids
 	Pending   []uint64 // withdrawal ids believed pending
 	Refunded  []uint64 // withdrawal ids already refunded (bad address or approved cancellation)
 	Canceling []uint64
@@ -149,16 +149,16 @@ func (b *Bot) clone() *Bot {
 
 // World is a node plus the bot.
 type World struct {
-	N       *sim.Node
-	Bot     *Bot
-	Members []sim.Member // relayer group: 0 = genesis proposer
-	ValKeys []sim.Key    // validator candidates (0.. = genesis validators)
-	UserScr []byte
-	UserAdr string
-	Aux     Cloner // monitor-owned history state, forked with the world
-	seqOff         uint64 // voted transactions assembled earlier in the same block (when chained)
-	widOff, reqOff uint64 // ids handed out to the requests of the block being assembled
-	lastNote       string // note about the message built last (replays: first-use | reuse)
+	N              *sim.Node
+	Bot            *Bot
+	Members        []sim.Member // relayer group: 0 = genesis proposer
+	ValKeys        []sim.Key    // validator candidates (0.. = genesis validators)
+	UserScr        []byte
+	UserAdr        string
+	Aux            Cloner                   // monitor-owned history state, forked with the world
+	seqOff         uint64                   // voted transactions assembled earlier in the same block (when chained)
+	widOff, reqOff uint64                   // ids handed out to the requests of the block being assembled
+	lastNote       string                   // note about the message built last (replays: first-use | reuse)
 	prov           map[uint64]*sim.BtcBlock // blocks voted by earlier transactions of the block being assembled
 }
 
@@ -350,7 +350,7 @@ func (w *World) BuildMsg(e Event) (msg sdk.Msg, commit func()) {
 		bad := append([]byte{}, b1.Header...)
 		bad[70] ^= 1
 		m := &bitcointypes.MsgNewDeposits{Proposer: rel.Proposer,
-			Deposits: []*bitcointypes.Deposit{mk(b0, b0.Height, 9), mk(b1, b1.Height, 9), mk(b1, tip+7, 8)},
+			Deposits:     []*bitcointypes.Deposit{mk(b0, b0.Height, 9), mk(b1, b1.Height, 9), mk(b1, tip+7, 8)},
 			BlockHeaders: []*bitcointypes.BlockHeader{{Height: b0.Height, Raw: b0.Header}, {Height: b1.Height, Raw: bad}, {Height: tip + 7, Raw: b1.Header}}}
 		return m, func() {}
 	case "tx:deposits":
@@ -433,6 +433,10 @@ func (w *World) BuildMsg(e Event) (msg sdk.Msg, commit func()) {
 			}
 		}
 		sort.Slice(pids, func(i, j int) bool { return pids[i] < pids[j] })
+		if e.Var == "newest" {
+			// bitcoin confirms the batches in any order: the youngest one first
+			sort.Slice(pids, func(i, j int) bool { return pids[i] > pids[j] })
+		}
 		for _, pid := range pids {
 			b := w.Bot.Batches[pid]
 			ci := len(b.Txs) - 1
@@ -748,18 +752,18 @@ func (w *World) ApplyReq(e Event) (commit func()) {
 // Result is everything observable about one executed ABlock.
 type Result struct {
 	*sim.BlockResult
-	Block        ABlock
-	RelayerTxs   [][]byte
-	EthOK        bool // the execution-block message succeeded
-	TxOK         []bool
-	HeightBefore int64
-	Skipped      []string // events not enabled in this state
-	SimBlock     *sim.Block
+	Block               ABlock
+	RelayerTxs          [][]byte
+	EthOK               bool // the execution-block message succeeded
+	TxOK                []bool
+	HeightBefore        int64
+	Skipped             []string // events not enabled in this state
+	SimBlock            *sim.Block
 	Notes               []string // per built relayer tx: harness note (replays: first-use | reuse)
 	AbandonedProposals  [][][]byte
 	AbandonedSysTxs     [][][]byte
 	AbandonChangedState bool
-	commitBot    func(fr *abci.ResponseFinalizeBlock)
+	commitBot           func(fr *abci.ResponseFinalizeBlock)
 }
 
 // Adopt records a FinalizeBlock response obtained by re-running the block outside Run
